@@ -19,6 +19,7 @@ import (
 type Config struct {
 	Unwind     int
 	MaxSteps   int
+	MaxSleeps  int
 	MapPermMax int
 	Solver     string
 	TimeoutMs  int
